@@ -121,14 +121,16 @@ inductive DistOut where
   | panic
 deriving Repr, DecidableEq
 
-/-- `NewInteger(lead).Mul(120).Div(100)` plus `NewInteger(sign)` when positive -/
+/-- `NewInteger(lead).Mul(120).Div(100)` plus `NewInteger(sign)` when positive
+    (`NewInteger(sign).Sign() > 0` is written `sign > 0`: the two are the same test, and the
+    latter does not make Lean's evaluator multiply a variable by the literal 10⁸) -/
 def workOf (lead sign : Nat) : Option Nat :=
   match mul (ofUint lead) 120 with
   | none => none
   | some a =>
     match div a 100 with
     | none => none
-    | some w => if ofUint sign > 0 then add w (ofUint sign) else some w
+    | some w => if sign > 0 then add w (ofUint sign) else some w
 
 def worksOf : List (Nat × Nat) → Option (List Nat)
   | [] => some []
